@@ -65,7 +65,7 @@ template<class T> static void equiv_one(const char* tn, int id, int nargs, const
     T rs = 1; { int e=0; for(int d=0;d<7;d++) e+=k[d]*rd[d]; rs = std::ldexp((T)1,e); }
     int off=0;
     for(int a=0;a<nargs;a++){ int e=0; for(int d=0;d<7;d++) e+=k[d]*ad[a][d]; T s = norm[a]? (T)1 : std::ldexp((T)1,e);
-      for(int c=0;c<inf->asz[a];c++){ T v = (T)U(g) * ((g()&1)? 1:-1); if(t%%3==0) v = std::fabs(v); x[off+c]=v; y[off+c]=v*s; } off+=9; }
+      for(int c=0;c<inf->asz[a];c++){ T v = (T)U(g) * ((g()&1)? 1:-1); if(t%%3==0 || sq) v = std::fabs(v); x[off+c]=v; y[off+c]=v*s; } off+=9; }
     T o1[16], o2[16]; int n1 = it->second(x,o1); int n2 = it->second(y,o2); (void)n2;
     for(int c=0;c<n1;c++){ if(!std::isfinite((long double)o1[c])||!std::isfinite((long double)o2[c])){ nonfinite++; continue; }
       double u = ulps<T>(o1[c]*rs, o2[c]); if(u>worst){ worst=u; wit=(long double)x[0]; } cnt++; }
@@ -94,21 +94,24 @@ static int run_twin(const char* file, uint64_t seed, int n){ FILE* f=fopen(file,
   while(fscanf(f,"%%d %%d %%d",&a,&b,&p)==3){ twin_one<float>("f",a,b,p,seed,n); twin_one<double>("d",a,b,p,seed,n); twin_one<long double>("l",a,b,p,seed,n); } fclose(f); return 0; }
 // inverse file line: id_fwd id_back posA(position of A in fwd args) posC(position of C in back args) sqrt-flag
 //  fwd: C = f(A,B) ; back: A = g(.. C at posC, B at the other ..)
-template<class T> static void inv_one(const char* tn, int ifw, int ibk, int nfw, int posA, int posC, int sq, uint64_t seed, int n){
+template<class T> static void inv_one(const char* tn, int ifw, int ibk, int nfw, int posA, int posC, int sq, int lin, const int* role, uint64_t seed, int n){
   auto ff = table<T>().find(ifw), fb = table<T>().find(ibk); if(ff==table<T>().end()||fb==table<T>().end()) return;
   const Info* i1 = info_of(ifw); std::mt19937_64 g(seed*104729+ifw*131+ibk); std::uniform_real_distribution<double> U(1.0,2.0);
   double worst=0; long cnt=0; int nonfinite=0; long double wit=0;
   for(int t=0;t<n;t++){ T x[96]={0}; int span = std::min(60, std::numeric_limits<T>::max_exponent/4);
     for(int a=0;a<nfw;a++) for(int c=0;c<i1->asz[a];c++) x[a*9+c]=(T)std::ldexp(U(g), (int)(g()%%(unsigned)span) - span/2);
+    if(role[0]||role[1]){ // admissible thermodynamic state: cv, gamma in [1.25,1.75], cp = gamma cv, R = cp - cv
+      T cv=(T)std::ldexp(U(g), (int)(g()%%(unsigned)span) - span/2), gam=(T)(1.25+0.5*(U(g)-1.0)), cp=gam*cv, R=cp-cv;
+      for(int a=0;a<nfw;a++){ T v = role[a]==1? cp : role[a]==2? cv : role[a]==3? R : role[a]==4? gam : x[a*9]; x[a*9]=v; } }
     T c1[16]; int nc = ff->second(x,c1); T y[96]={0};
     for(int c=0;c<nc;c++) y[posC*9+c]=c1[c];
     if(nfw==2) for(int c=0;c<i1->asz[1-posA];c++) y[(1-posC)*9+c]=x[(1-posA)*9+c];
     T a2[16]; int na = fb->second(y,a2);
-    for(int c=0;c<na;c++){ if(!std::isfinite((long double)a2[c])){ nonfinite++; continue; } double u=ulps<T>(a2[c], x[posA*9+c]); if(u>worst){ worst=u; wit=(long double)x[posA*9+c]; } cnt++; } }
-  printf("{\"e\":\"Inverse\",\"fwd\":%%d,\"back\":%%d,\"num\":\"%%s\",\"ulps\":%%ld,\"n\":%%ld,\"nonfinite\":%%d,\"sqrt\":%%d,\"witness\":\"%%La\"}\n", ifw, ibk, tn, worst>1e9? 1000000000L:(long)std::ceil(worst), cnt, nonfinite, sq, wit);
+    for(int c=0;c<na;c++){ if(!std::isfinite((long double)a2[c])){ nonfinite++; continue; } double u=ulps<T>(a2[c], x[posA*9+c]); if(lin){ T sc=std::fabs(x[posA*9+c]); if(nfw==2) sc=std::max(sc,std::fabs(x[(1-posA)*9+c])); sc=std::max(sc,std::fabs(c1[c])); int e; std::frexp(sc,&e); u=(double)(std::fabs(a2[c]-x[posA*9+c])/std::ldexp((T)1,e-std::numeric_limits<T>::digits)); } if(u>worst){ worst=u; wit=(long double)x[posA*9+c]; } cnt++; } }
+  printf("{\"e\":\"Inverse\",\"fwd\":%%d,\"back\":%%d,\"num\":\"%%s\",\"ulps\":%%ld,\"n\":%%ld,\"nonfinite\":%%d,\"sqrt\":%%d,\"kappa\":%%d,\"witness\":\"%%La\"}\n", ifw, ibk, tn, worst>1e9? 1000000000L:(long)std::ceil(worst), cnt, nonfinite, sq, (role[0]||role[1])? 8:1, wit);
 }
-static int run_inverse(const char* file, uint64_t seed, int n){ FILE* f=fopen(file,"r"); if(!f) return 3; int a,b,nf,pa,pc,sq;
-  while(fscanf(f,"%%d %%d %%d %%d %%d %%d",&a,&b,&nf,&pa,&pc,&sq)==6){ inv_one<float>("f",a,b,nf,pa,pc,sq,seed,n); inv_one<double>("d",a,b,nf,pa,pc,sq,seed,n); inv_one<long double>("l",a,b,nf,pa,pc,sq,seed,n); } fclose(f); return 0; }
+static int run_inverse(const char* file, uint64_t seed, int n){ FILE* f=fopen(file,"r"); if(!f) return 3; int a,b,nf,pa,pc,sq,lin,role[2];
+  while(fscanf(f,"%%d %%d %%d %%d %%d %%d %%d %%d %%d",&a,&b,&nf,&pa,&pc,&sq,&lin,&role[0],&role[1])==9){ inv_one<float>("f",a,b,nf,pa,pc,sq,lin,role,seed,n); inv_one<double>("d",a,b,nf,pa,pc,sq,lin,role,seed,n); inv_one<long double>("l",a,b,nf,pa,pc,sq,lin,role,seed,n); } fclose(f); return 0; }
 
 int main(int argc, char** argv){
 %(regs)s
@@ -117,6 +120,7 @@ int main(int argc, char** argv){
   if(mode=="equiv") return run_equiv(argv[2], strtoull(argv[3],0,10), atoi(argv[4]));
   if(mode=="twin") return run_twin(argv[2], strtoull(argv[3],0,10), atoi(argv[4]));
   if(mode=="inverse") return run_inverse(argv[2], strtoull(argv[3],0,10), atoi(argv[4]));
+  setvbuf(stdout, NULL, _IOLBF, 0);
   char line[8192];
   while(fgets(line,sizeof line,stdin)){
     std::istringstream ss(line); int id; std::string num; if(!(ss>>id>>num)) continue; long double in[96]; int nin=0; std::string tok;
